@@ -150,3 +150,71 @@ def opCodec : List String → Option String
   | _ => none
 
 end BV.Drv
+
+namespace BV.Drv
+open BV BV.Dict BV.Spec BV.Parse
+
+def knownEntry (v : Option Nat) (c : Nat) : Option Entry :=
+  dispatch Gen.dictionary { code := c, flags := 0, vendor := v, data := [] }
+
+/-- what a decoder that preserves every field must return for a content tree (specification side of
+    C02): code, flags, Vendor-ID and data as on the wire, the dictionary class of a known
+    (vendor, code) pair, members of known Grouped AVPs -/
+partial def observe : Content → String
+  | .leaf c f v d =>
+    let vs := match v with | some v => toString v | none => "-"
+    let cls := match knownEntry v c with | some e => e.name | none => "-"
+    s!"A {c} {f} {vs} {toHex d} {cls} 0"
+  | .grouped c f v ks =>
+    let vs := match v with | some v => toString v | none => "-"
+    let d := encList ks
+    match knownEntry v c with
+    | some e =>
+      if e.kind == .grouped then
+        s!"A {c} {f} {vs} {toHex d} {e.name} {ks.length}" ++ String.join (ks.map fun k => " " ++ observe k)
+      else s!"A {c} {f} {vs} {toHex d} {e.name} 0"
+    | none => s!"A {c} {f} {vs} {toHex d} - 0"
+
+/-- guard of the known finding C02-reflag: some known AVP (any depth) carries a flag byte other than
+    its dictionary default -/
+partial def reflagged : Content → Bool
+  | .leaf c f v _ => match knownEntry v c with | some e => e.flags != f | none => false
+  | .grouped c f v ks =>
+    (match knownEntry v c with | some e => e.flags != f | none => false) || ks.any reflagged
+
+partial def parseMsgDescs : Nat → List String → Option (List (HeaderFields × List Desc) × List String)
+  | 0, r => some ([], r)
+  | k + 1, ver :: fl :: cmd :: app :: hbh :: e2e :: n :: r =>
+    match parseDescs (nat! n) r with
+    | some (ds, r') =>
+      match parseMsgDescs k r' with
+      | some (ms, r'') => some ((⟨nat! ver, nat! fl, nat! cmd, nat! app, nat! hbh, nat! e2e⟩, ds) :: ms, r'')
+      | none => none
+    | none => none
+  | _, _ => none
+
+def loadMsgsStr (wire : Bytes) : String :=
+  match loadMsgs Gen.dictionary wire with
+  | .ok ms => "ok " ++ " | ".intercalate (ms.map fun m =>
+      hdrStr m.hdr ++ " " ++ toString m.avps.length ++ String.join (m.avps.map fun a => " " ++ lavpStr a) ++ " R " ++ toHex m.dump)
+  | .error e => perr e
+
+def opC02 : List String → Option String
+  | "c02" :: k :: toks =>
+    match parseMsgDescs (nat! k) toks with
+    | some (ms, []) =>
+      match ms.mapM (fun (hf, ds) => (ds.mapM content).map fun cs => (hf, cs)) with
+      | none => some "out-of-domain"
+      | some mcs =>
+        let wires := mcs.map fun (hf, cs) => encMsg hf cs
+        let wire := wires.flatten
+        let spec := "ok " ++ " | ".intercalate (mcs.map fun (hf, cs) =>
+          let w := encMsg hf cs
+          s!"H {hf.version} {w.length} {hf.flags} {hf.cmd} {hf.app} {hf.hbh} {hf.e2e} {cs.length}" ++
+            String.join (cs.map fun c => " " ++ observe c) ++ " R " ++ toHex w)
+        let rf := mcs.any fun (_, cs) => cs.any reflagged
+        some s!"wire={toHex wire} reflag={b01 rf} ;; {loadMsgsStr wire} ;; {spec}"
+    | _ => some "bad-desc"
+  | _ => none
+
+end BV.Drv
